@@ -35,7 +35,43 @@ type THooks struct {
 	// Branch refines the client state on one side of an If (side true = Succs[0]).
 	// Returning nil marks the side infeasible. May be nil.
 	Branch func(iff *ssa.If, side bool, st TState) TState
+	// Phi tells the client which incoming value a phi takes on the edge being followed (all phis
+	// of a block are reported against the state before the edge: parallel assignment). May be nil.
+	Phi func(ph *ssa.Phi, incoming ssa.Value, st TState) TState
 }
+
+// enterState applies the Phi hook for the edge p -> n.
+func (w *tsWalker) enterState(p, n *ssa.BasicBlock, st TState) TState {
+	if w.h.Phi == nil {
+		return st
+	}
+	idx := -1
+	for i, pp := range n.Preds {
+		if pp == p {
+			idx = i
+			break
+		}
+	}
+	if idx < 0 {
+		return st
+	}
+	old := st
+	for _, in := range n.Instrs {
+		ph, ok := in.(*ssa.Phi)
+		if !ok {
+			break
+		}
+		// the client reads `old` through the incoming value if it is itself a phi
+		st = w.h.Phi(ph, resolveThrough(ph.Edges[idx], old, w), st)
+		if st == nil {
+			return nil
+		}
+	}
+	return st
+}
+
+// resolveThrough is the identity; kept as a seam for clients that map phis to values.
+func resolveThrough(v ssa.Value, _ TState, _ *tsWalker) ssa.Value { return v }
 
 type factEnv map[ssa.Value]bool
 
@@ -81,6 +117,11 @@ func knownNonNil(v ssa.Value) bool {
 	switch x := v.(type) {
 	case *ssa.Alloc, *ssa.MakeInterface, *ssa.MakeClosure, *ssa.MakeMap, *ssa.MakeSlice, *ssa.FieldAddr, *ssa.IndexAddr:
 		return true
+	case *ssa.UnOp:
+		// a package-level sentinel error (var ErrX = errors.New(…))
+		if g, ok := x.X.(*ssa.Global); ok && x.Op == token.MUL && isErrorType(x.Type()) && strings.HasPrefix(g.Name(), "Err") {
+			return true
+		}
 	case *ssa.Call:
 		if cal := x.Common().StaticCallee(); cal != nil && cal.Pkg != nil {
 			p, n := cal.Pkg.Pkg.Path(), cal.Name()
@@ -96,6 +137,10 @@ type tsWalker struct {
 	h     THooks
 	sc    *Scope
 	depth int
+	// interesting: per function, the values a recorded fact can ever be consulted for (tested by
+	// two or more branches, or flowing into a phi / a returned error that is). Facts about other
+	// values are not recorded: they could only multiply the states.
+	interesting map[*ssa.Function]map[ssa.Value]bool
 	// edges, when non-nil, collects the CFG edges taken in the outermost function
 	edges map[[2]*ssa.BasicBlock]bool
 	// start overrides the entry of the outermost function
@@ -217,7 +262,9 @@ func (w *tsWalker) walk(fn *ssa.Function, st TState) []TExit {
 				if outer && w.edges != nil {
 					w.edges[[2]*ssa.BasicBlock{it.b, n}] = true
 				}
-				work = append(work, tsItem{n, 0, cur, enterFacts(it.b, n, facts)})
+				if ns := w.enterState(it.b, n, cur); ns != nil {
+					work = append(work, tsItem{n, 0, ns, enterFacts(it.b, n, facts)})
+				}
 				dead = true
 				continue
 			case *ssa.Panic:
@@ -276,6 +323,74 @@ func (k tupleKey) val() ssa.Value {
 	v := &ssa.Const{}
 	tupleVals[k] = v
 	return v
+}
+
+// interestingValues computes the values worth recording facts for in fn.
+func interestingValues(fn *ssa.Function) map[ssa.Value]bool {
+	tested := map[ssa.Value]int{}
+	for _, b := range fn.Blocks {
+		if len(b.Instrs) == 0 {
+			continue
+		}
+		if iff, ok := b.Instrs[len(b.Instrs)-1].(*ssa.If); ok {
+			v, _ := condFact(iff.Cond)
+			tested[v]++
+		}
+	}
+	out := map[ssa.Value]bool{}
+	for v, n := range tested {
+		if n >= 2 {
+			out[v] = true
+		}
+	}
+	// phis that are tested or returned as the error make their inputs interesting (transitively)
+	var mark func(v ssa.Value, d int)
+	mark = func(v ssa.Value, d int) {
+		if d > 6 {
+			return
+		}
+		ph, ok := v.(*ssa.Phi)
+		if !ok {
+			return
+		}
+		for _, e := range ph.Edges {
+			if !out[e] {
+				out[e] = true
+				mark(e, d+1)
+			}
+		}
+	}
+	for v := range tested {
+		if _, ok := v.(*ssa.Phi); ok {
+			out[v] = true
+			mark(v, 0)
+		}
+	}
+	for _, b := range fn.Blocks {
+		if len(b.Instrs) == 0 {
+			continue
+		}
+		if ret, ok := b.Instrs[len(b.Instrs)-1].(*ssa.Return); ok {
+			if n := len(ret.Results); n > 0 && isErrorType(ret.Results[n-1].Type()) {
+				v := RetVal(ret, n-1)
+				out[v] = true
+				mark(v, 0)
+			}
+		}
+	}
+	return out
+}
+
+func (w *tsWalker) isInteresting(fn *ssa.Function, v ssa.Value) bool {
+	if w.interesting == nil {
+		w.interesting = map[*ssa.Function]map[ssa.Value]bool{}
+	}
+	m, ok := w.interesting[fn]
+	if !ok {
+		m = interestingValues(fn)
+		w.interesting[fn] = m
+	}
+	return m[v]
 }
 
 func isErrorType(t types.Type) bool {
@@ -360,7 +475,7 @@ func (w *tsWalker) branch(iff *ssa.If, b *ssa.BasicBlock, st TState, facts factE
 			continue
 		}
 		nf := facts
-		if !known {
+		if !known && w.isInteresting(b.Parent(), v) {
 			nf = facts.clone()
 			nf[v] = taken == t
 		}
@@ -372,6 +487,9 @@ func (w *tsWalker) branch(iff *ssa.If, b *ssa.BasicBlock, st TState, facts factE
 			}
 		}
 		n := b.Succs[side]
+		if ns = w.enterState(b, n, ns); ns == nil {
+			continue
+		}
 		*work = append(*work, tsItem{n, 0, ns, enterFacts(b, n, nf)})
 	}
 }
